@@ -755,6 +755,7 @@ func fsC06Scenarios(thorough bool) []*fsScenario {
 
 func fsExplore(t *testing.T, res *ev.Result, prop string, bound int, scs []*fsScenario, budget time.Duration) {
 	log.Info("warm up the logger outside the bubble")
+	schedQuiet()
 	sched.StartWatchdog(120 * time.Second)
 	e := sched.NewExplorer(t, bound)
 	e.Horizon = 20 * time.Second
